@@ -78,6 +78,7 @@ DirsMixW == {<<>>, <<Dir("include", Lit("bool", TRUE))>>, <<Dir("skip", Lit("var
 VarValsBoolBoth == [ v |-> {Bool(TRUE), Bool(FALSE)}, w |-> {Bool(TRUE), Bool(FALSE)}, n |-> {Int(3)}, m |-> {Int(4)}, x |-> {Str("xs")}, y |-> {Int(5)} ]
 AlphaSimF == AlphaOf([Query |-> {"o", "on", "s"}, T |-> {"s", "d", "i", "sn"}])
 AlphaFalsy == AlphaOf([Query |-> {"s", "i", "bo", "fl", "idf", "o", "lp"}, T |-> {"d", "i"}, P |-> {"s"}, B |-> {"d"}])
+AlphaLong == AlphaOf([Query |-> {"lo"}, T |-> {"o", "i"}])
 \* two operations, each with its own fragments and its own variable (one Boolean in a directive, one Int in an argument)
 AlphaOps2 == AlphaOf([Query |-> {"f", "s"}])
 ArgOptsOps2 == [ f |-> {<<ArgV("a", Lit("var", "n"))>>}, g |-> {<<ArgV("r", Lit("int", 2))>>} ]
@@ -143,6 +144,9 @@ BenignAt(p) ==
   (IF ~IsNN(t) THEN {[o |-> "null"]} ELSE {})
   \cup (IF ~IsNN(t) /\ ~IsList(core) /\ Named(core) = "Cs" THEN {[o |-> "blank"]} ELSE {})
   \cup (IF IsList(core) THEN {[o |-> "len", n |-> 0], [o |-> "len", n |-> 1], [o |-> "len", n |-> 3]} ELSE {})
+  \* a long list (more items than any small pool / limit an implementation might have)
+  \* (only in the configuration that sets MaxOverlay = 2: long lists make every evaluation slow)
+  \cup (IF MaxOverlay >= 2 /\ IsList(core) /\ ~IsList(IF IsNN(Tail(core)) THEN Tail(Tail(core)) ELSE Tail(core)) THEN {[o |-> "len", n |-> 40]} ELSE {})
   \cup (IF ~IsList(core) /\ IsAbstract(Named(core)) THEN {[o |-> "rt", tn |-> x] : x \in Possible(Named(core))} ELSE {})
   \* falsy-but-present values: 0 / "" / false / 0.0 from a resolver, "" in a default-resolved attribute
   \cup (IF FalsyOverlays /\ ~IsList(core) /\ Named(core) \in {"Int", "Float", "Boolean", "String", "ID"} THEN {[o |-> "falsy"]} ELSE {})
